@@ -132,10 +132,7 @@ public:
 			dispatcher->appendListener(event, listener)
 		};
 
-		{
-			std::unique_lock<typename DispatcherType::Mutex> lock(itemListMutex);
-			itemList.push_back(item);
-		}
+		doRecordItem(item);
 
 		return item.handle;
 	}
@@ -151,10 +148,7 @@ public:
 			dispatcher->prependListener(event, listener)
 		};
 		
-		{
-			std::unique_lock<typename DispatcherType::Mutex> lock(itemListMutex);
-			itemList.push_back(item);
-		}
+		doRecordItem(item);
 		
 		return item.handle;
 	}
@@ -171,10 +165,7 @@ public:
 			dispatcher->insertListener(event, listener, before)
 		};
 		
-		{
-			std::unique_lock<typename DispatcherType::Mutex> lock(itemListMutex);
-			itemList.push_back(item);
-		}
+		doRecordItem(item);
 		
 		return item.handle;
 	}
@@ -185,6 +176,21 @@ public:
 			return dispatcher->removeListener(event, handle);
 		}
 		return false;
+	}
+
+private:
+	// Record a listener that was just added. If recording fails the listener is removed again,
+	// so a failed call neither leaves it attached nor leaves it without a remover.
+	void doRecordItem(const Item & item)
+	{
+		try {
+			std::unique_lock<typename DispatcherType::Mutex> lock(itemListMutex);
+			itemList.push_back(item);
+		}
+		catch(...) {
+			dispatcher->removeListener(item.event, item.handle);
+			throw;
+		}
 	}
 
 private:
@@ -276,10 +282,7 @@ public:
 			callbackList->append(callback)
 		};
 
-		{
-			std::unique_lock<typename CallbackListType::Mutex> lock(itemListMutex);
-			itemList.push_back(item);
-		}
+		doRecordItem(item);
 
 		return item.handle;
 	}
@@ -293,10 +296,7 @@ public:
 			callbackList->prepend(callback)
 		};
 
-		{
-			std::unique_lock<typename CallbackListType::Mutex> lock(itemListMutex);
-			itemList.push_back(item);
-		}
+		doRecordItem(item);
 
 		return item.handle;
 	}
@@ -311,10 +311,7 @@ public:
 			callbackList->insert(callback, before)
 		};
 
-		{
-			std::unique_lock<typename CallbackListType::Mutex> lock(itemListMutex);
-			itemList.push_back(item);
-		}
+		doRecordItem(item);
 
 		return item.handle;
 	}
@@ -325,6 +322,21 @@ public:
 			return callbackList->remove(handle);
 		}
 		return false;
+	}
+
+private:
+	// Record a callback that was just added. If recording fails the callback is removed again,
+	// so a failed call neither leaves it attached nor leaves it without a remover.
+	void doRecordItem(const Item & item)
+	{
+		try {
+			std::unique_lock<typename CallbackListType::Mutex> lock(itemListMutex);
+			itemList.push_back(item);
+		}
+		catch(...) {
+			callbackList->remove(item.handle);
+			throw;
+		}
 	}
 
 private:
